@@ -29,6 +29,20 @@ func main() {
 		}
 	case "manifest":
 		os.Stdout.Write(rules.Manifest())
+	case "anchors":
+		// gscheck anchors [DIR]: functions and struct fields of the pinned tree with their types (rename baseline)
+		dir := "/repo"
+		if len(os.Args) > 2 {
+			dir = os.Args[2]
+		}
+		prog, err := engine.Load(dir, false)
+		if err != nil {
+			fmt.Fprintln(os.Stderr, "gscheck:", err)
+			os.Exit(2)
+		}
+		for _, l := range prog.AnchorLines() {
+			fmt.Println(l)
+		}
 	case "names":
 		// gscheck names [DIR]: the function list used as the normalisation baseline
 		dir := "/repo"
@@ -119,6 +133,10 @@ func check(args []string) int {
 	for _, l := range norm.Notes {
 		fmt.Println("gscheck: normalised:", l)
 	}
+	if err := engine.LoadBaseline(filepath.Join(*verif, "baseline", "anchors.txt")); err != nil {
+		fmt.Fprintln(os.Stderr, "gscheck: INFRASTRUCTURE ERROR:", err)
+		return 2
+	}
 	prog, err := engine.Load(norm.Dir, thorough)
 	if err != nil {
 		// infrastructure error: no VIOLATION line
@@ -150,6 +168,9 @@ func check(args []string) int {
 		wall := time.Since(t1).Seconds() + prog.LoadSecs
 		if len(ids) == 1 {
 			wall = time.Since(t0).Seconds()
+		}
+		for _, l := range engine.RenameNotes {
+			ctx.Note("renamed anchor: %s", l)
 		}
 		res, err := ctx.Finish(p.Meta, known, *evdir, *tier, seed, wall)
 		if err != nil {
